@@ -17,14 +17,11 @@
 from __future__ import annotations
 
 import io
-from typing import BinaryIO, Callable, List, Optional, TypeVar, Union
+from typing import BinaryIO, Callable, List, Optional
 
 from falcon.util import deprecated
 
 __all__ = ('BoundedStream',)
-
-
-Result = TypeVar('Result', bound=Union[bytes, List[bytes]])
 
 
 class BoundedStream(io.IOBase):
@@ -57,11 +54,17 @@ class BoundedStream(io.IOBase):
         return self
 
     def __next__(self) -> bytes:
-        return next(self.stream)
+        # NOTE: Iterate by way of the bounded readline(), so that iteration
+        #   never consumes data beyond the expected content length.
+        line = self.readline()
+        if not line:
+            raise StopIteration
+
+        return line
 
     next = __next__
 
-    def _read(self, size: Optional[int], target: Callable[[int], Result]) -> Result:
+    def _read(self, size: Optional[int], target: Callable[[int], bytes]) -> bytes:
         """Proxy reads to the underlying stream.
 
         Args:
@@ -84,8 +87,19 @@ class BoundedStream(io.IOBase):
         if size is None or size == -1 or size > self._bytes_remaining:
             size = self._bytes_remaining
 
-        self._bytes_remaining -= size
-        return target(size)
+        data = target(size)
+
+        # NOTE: Only deduct what the underlying stream actually returned; a
+        #   line read, or a stream that returns less than it was asked for,
+        #   must not make the rest of the body unreachable.
+        if data:
+            self._bytes_remaining -= len(data)
+        elif size > 0:
+            # NOTE: The underlying stream ended before the expected
+            #   content length was reached; there is nothing more to read.
+            self._bytes_remaining = 0
+
+        return data
 
     def readable(self) -> bool:
         """Return ``True`` always."""
@@ -139,7 +153,25 @@ class BoundedStream(io.IOBase):
 
         """
 
-        return self._read(hint, self.stream.readlines)
+        # NOTE: Read line by line by way of the bounded readline(); the
+        #   underlying stream's readlines() treats its argument merely as
+        #   a hint (and 0 as "no limit"), so it may not be used directly
+        #   without reading beyond the expected content length.
+        lines = []
+        total = 0
+
+        while True:
+            line = self.readline()
+            if not line:
+                break
+
+            lines.append(line)
+            total += len(line)
+
+            if hint is not None and 0 < hint <= total:
+                break
+
+        return lines
 
     def write(self, data: bytes) -> None:
         """Raise IOError always; writing is not supported."""
